@@ -22,9 +22,10 @@ func TestMain(m *testing.M) {
 		evid.Spec{Name: "TestPropLCSRandom", Kind: "rapid", Quick: 24000, Thorough: 800000, QuickShards: 8, ThoroughShards: 16},
 		evid.Spec{Name: "TestPropD1Random", Kind: "rapid", Quick: 24000, Thorough: 800000, QuickShards: 4, ThoroughShards: 16},
 		evid.Spec{Name: "FuzzLCS", Kind: "fuzz", Thorough: 90, ThoroughOnly: true, QuickShards: 1, ThoroughShards: 1},
+		evid.Spec{Name: "TestPropConcurrentCalls", Kind: "rapid", Quick: 1600, Thorough: 40000, QuickShards: 8, ThoroughShards: 16},
 		evid.Spec{Name: "TestPropBufferReuse", Kind: "rapid", Quick: 4000, Thorough: 100000, QuickShards: 4, ThoroughShards: 16},
 	)
-	evid.Note("rule", "exhaustive: every ordered pair of strings over {a,c,g,t} up to length 4 (quick) / 5 (thorough), empty string included, x bounds -1..3, for FastLCSScore, FastLCSEGFScore and D1Or0; random: pairs up to 300 nt with IUPAC codes built by mutation so that the true number of differences lies within +-2 of the bound; buffer-reuse: generated call sequences sharing one scratch buffer. Oracle: independent full-matrix DP (LCS with shortest-alignment tie-break, IUPAC table written from the documentation; Levenshtein). Non-trivial = the two lengths differ and the true difference is within +-1 of the bound (lcs checks) / edit distance 1 or 2 (one-difference checks). Distinct = hash of (check, a, b, bound).")
+	evid.Note("rule", "exhaustive: every ordered pair of strings over {a,c,g,t} up to length 4 (quick) / 5 (thorough), empty string included, x bounds -1..3, for FastLCSScore, FastLCSEGFScore and D1Or0; random: pairs up to 300 nt with IUPAC codes built by mutation so that the true number of differences lies within +-2 of the bound; buffer-reuse: generated call sequences sharing one scratch buffer; concurrent: 2..8 goroutines repeating a generated call list with no buffer / a buffer of their own at the same time, each answer compared with the answer obtained alone. Oracle: independent full-matrix DP (LCS with shortest-alignment tie-break, IUPAC table written from the documentation; Levenshtein). Non-trivial = the two lengths differ and the true difference is within +-1 of the bound (lcs checks) / edit distance 1 or 2 (one-difference checks). Distinct = hash of (check, a, b, bound).")
 	evid.Main(m, "C09")
 }
 
@@ -395,6 +396,82 @@ func TestPropBufferReuse(t *testing.T) {
 		evid.Eval("lcs_buffer", evid.Hash(fmt.Sprint(c.Calls)), nontrivial, nil, "buffer_reuse_sequences")
 		if err := checkCalls(c); err != nil {
 			evid.Fail(rt, "lcs_buffer", c, err)
+		}
+	})
+}
+
+// ------------------------------------------------------------------ concurrent callers
+
+// Several callers (obiconsensus, obicleandb, obirefidx run one goroutine per
+// worker) call the kernels at the same time, with no buffer or with a buffer of
+// their own: every answer must still be the exact one.  Inputs are a pure
+// function of the seed; the interleaving is not.
+type concCase struct {
+	Calls   []lcsCase
+	Workers int
+	Rounds  int
+}
+
+func init() { evid.Reg("lcs_concurrent", checkConcurrent) }
+
+func checkConcurrent(c concCase) error {
+	type res struct{ s, l, d int }
+	want := make([]res, len(c.Calls))
+	for i, call := range c.Calls {
+		s, l := obialign.FastLCSScore(bs(call.A), bs(call.B), call.Bound, nil)
+		if err := judgeLCS(call, s, l); err != nil {
+			return fmt.Errorf("sequential call %d: %v", i, err)
+		}
+		d, _, _, _ := obialign.D1Or0(bs(call.A), bs(call.B))
+		want[i] = res{s, l, d}
+	}
+	nw := max(2, c.Workers)
+	errs := make(chan error, nw)
+	start := make(chan struct{})
+	for w := 0; w < nw; w++ {
+		go func(w int) {
+			var own []uint64
+			<-start
+			for r := 0; r < max(1, c.Rounds); r++ {
+				for i, call := range c.Calls {
+					var buf *[]uint64
+					if (i+w+r)%2 == 0 {
+						buf = &own
+					}
+					s, l := obialign.FastLCSScore(bs(call.A), bs(call.B), call.Bound, buf)
+					d, _, _, _ := obialign.D1Or0(bs(call.A), bs(call.B))
+					if (res{s, l, d}) != want[i] {
+						errs <- fmt.Errorf("with %d concurrent callers, call %d (%q,%q,bound=%d, own buffer=%v) answered (%d,%d) d1=%d; alone it answers (%d,%d) d1=%d",
+							nw, i, call.A, call.B, call.Bound, buf != nil, s, l, d, want[i].s, want[i].l, want[i].d)
+						return
+					}
+				}
+			}
+			errs <- nil
+		}(w)
+	}
+	close(start)
+	var first error
+	for w := 0; w < nw; w++ {
+		if err := <-errs; err != nil && first == nil {
+			first = err
+		}
+	}
+	return first
+}
+
+func TestPropConcurrentCalls(t *testing.T) {
+	rapid.Check(t, func(rt *rapid.T) {
+		var c concCase
+		n := rapid.IntRange(4, 24).Draw(rt, "ncalls")
+		for i := 0; i < n; i++ {
+			c.Calls = append(c.Calls, genPair(rt, rapid.SampledFrom([]int{30, 120, 300}).Draw(rt, "maxlen")))
+		}
+		c.Workers = rapid.IntRange(2, 8).Draw(rt, "workers")
+		c.Rounds = rapid.IntRange(1, 6).Draw(rt, "rounds")
+		evid.Eval("lcs_concurrent", evid.Hash(fmt.Sprint(c)), c.Workers >= 4, nil, "concurrent_callers")
+		if err := checkConcurrent(c); err != nil {
+			evid.Fail(rt, "lcs_concurrent", c, err)
 		}
 	})
 }
